@@ -105,6 +105,18 @@ type Lease struct {
 	// Issue #15: Option 82 information
 	CircuitID []byte // Option 82 Circuit-ID
 	RemoteID  []byte // Option 82 Remote-ID
+
+	// acctStopped is set (atomically) by the one path that sends the
+	// Accounting-Stop of the session
+	acctStopped uint32
+}
+
+// claimAccountingStop reports whether the caller is the one that sends the
+// Accounting-Stop of the lease's session. A lease can be ended by a path of
+// its own (release, decline, expiry, reclaim) while the shutdown path closes
+// every open session: whoever comes second finds the Stop already claimed.
+func (l *Lease) claimAccountingStop() bool {
+	return atomic.CompareAndSwapUint32(&l.acctStopped, 0, 1)
 }
 
 // pendingOffer is an address reserved in a pool by DISCOVER for a client that
@@ -330,7 +342,7 @@ func (s *Server) stopAllAccounting(terminateCause uint32) {
 	s.leasesMu.RLock()
 	open := make([]*Lease, 0, len(s.leases))
 	for _, lease := range s.leases {
-		if lease != nil && lease.SessionID != "" {
+		if lease != nil && lease.SessionID != "" && lease.claimAccountingStop() {
 			open = append(open, lease)
 		}
 	}
@@ -1123,7 +1135,7 @@ func (s *Server) releaseSessionResources(mac net.HardwareAddr, lease *Lease, ter
 	}
 
 	// Send RADIUS Accounting-Stop
-	if s.radiusClient != nil && lease.SessionID != "" {
+	if s.radiusClient != nil && lease.SessionID != "" && lease.claimAccountingStop() {
 		sessionTime := uint32(time.Since(lease.SessionStart).Seconds())
 		go func() {
 			err := s.radiusClient.SendAccounting(context.Background(), &radius.AcctRequest{
